@@ -47,14 +47,25 @@ def run_get(resolver, start, path):
 _RESOLVERS = {}
 
 
+class ConfiguredLater(Resolver):
+    """A user subclass that sets the (public, plain) option attributes itself after calling the base constructor."""
+
+    def __init__(self, pathattr, ignorecase, relax):
+        super(ConfiguredLater, self).__init__()
+        self.pathattr = pathattr
+        self.ignorecase = ignorecase
+        self.relax = relax
+
+
 def resolver(pathattr, ic, relax):
     """Resolver objects are kept for the whole process: results must not depend on what an instance did before."""
     key = (pathattr, ic, relax)
     if key not in _RESOLVERS:
-        _RESOLVERS[key] = [Resolver(pathattr, ignorecase=ic, relax=relax), Resolver(pathattr, ic, relax)]
-    pair = _RESOLVERS[key]
-    pair.reverse()
-    return pair[0]
+        # keyword form, positional form, and a subclass that configures the public attributes after the base constructor ran
+        _RESOLVERS[key] = [Resolver(pathattr, ignorecase=ic, relax=relax), Resolver(pathattr, ic, relax), ConfiguredLater(pathattr, ic, relax)]
+    trio = _RESOLVERS[key]
+    trio.append(trio.pop(0))
+    return trio[0]
 
 
 def check_path(case, nodes, labels, start, path, acc):
